@@ -135,3 +135,291 @@ Proof.
   intros H Hc. unfold next_grapheme_token. cbn [rs_state rs_fm rs_ri].
   rewrite (step_grapheme_after_boundary _ _ _ _ _ _ H Hc). reflexivity.
 Qed.
+
+(* ---- prefix stability: the first cluster of x ++ b, when it ends inside x, is the first cluster of x ---- *)
+From Termemu Require Import ParserProofs ParserMono.
+
+(* x consists of whole UTF-8 decoding steps (valid characters or single invalid bytes): no character is cut at its end *)
+Inductive aligned : list Z -> Prop :=
+| al_nil : aligned []
+| al_cons y r l v : decode_rune y = Some (r, l, v) -> aligned (zskipn l y) -> aligned y.
+
+Lemma skipn_add {A} : forall b a (l : list A), skipn a (skipn b l) = skipn (a + b) l.
+Proof.
+  induction b as [|b IH]; intros a l; [rewrite Nat.add_0_r; reflexivity|].
+  destruct l as [|x l]; [rewrite !skipn_nil; reflexivity|].
+  rewrite Nat.add_succ_r. cbn [skipn]. apply IH.
+Qed.
+
+Lemma zskipn_zskipn {A} a b (l : list A) : 0 <= a -> 0 <= b -> zskipn a (zskipn b l) = zskipn (b + a) l.
+Proof. intros Ha Hb. unfold zskipn. rewrite skipn_add. f_equal. lia. Qed.
+
+Lemma zskipn_app_le {A} n (l m : list A) : 0 <= n <= zlen l -> zskipn n (l ++ m) = zskipn n l ++ m.
+Proof.
+  intros H. unfold zskipn, zlen in *. rewrite skipn_app.
+  replace (Z.to_nat n - length l)%nat with O by lia. reflexivity.
+Qed.
+
+Lemma go_decode_aligned y b r l v : decode_rune y = Some (r, l, v) ->
+  go_decode_rune (y ++ b) = (r, l) /\ go_decode_rune y = (r, l).
+Proof.
+  intros H. pose proof (decode_rune_mono y b _ H) as H2. unfold go_decode_rune.
+  destruct y as [|y0 y']; [discriminate|]. cbn [app]. cbn [app] in H2. rewrite H2, H. split; reflexivity.
+Qed.
+
+Lemma go_decode_size buf : buf <> [] -> 1 <= snd (go_decode_rune buf) <= zlen buf.
+Proof.
+  intros H. unfold go_decode_rune. destruct buf as [|b0 r0]; [contradiction|].
+  destruct (decode_rune (b0 :: r0)) as [[[r l] v]|] eqn:E; cbn [snd].
+  - pose proof (decode_rune_size _ _ _ _ E). lia.
+  - rewrite zlen_cons. pose proof (zlen_nonneg r0). lia.
+Qed.
+
+Lemma zskipn_nonempty {A} n (l : list A) : 0 <= n < zlen l -> zskipn n l <> [].
+Proof.
+  intros H E. pose proof (zlen_zskipn_le n l ltac:(lia)) as L. rewrite E, zlen_nil in L. lia.
+Qed.
+
+(* the loop returns a position not before where it started, and the starting width if it stops at once *)
+Lemma ustep_loop_ge : forall fuel buf gs fp w len c w' ns, 0 <= len < zlen buf ->
+  ustep_loop fuel buf gs fp w len = (c, w', ns) -> len <= c /\ (c = len -> w' = w).
+Proof.
+  induction fuel as [|f IH]; intros buf gs fp w len c w' ns Hl H; cbn [ustep_loop] in H.
+  - inversion H; subst. split; [lia|reflexivity].
+  - pose proof (go_decode_size (zskipn len buf) (zskipn_nonempty _ _ Hl)) as Hs.
+    destruct (go_decode_rune (zskipn len buf)) as [r l]. cbn [snd] in Hs.
+    destruct (trans_grapheme gs r) as [[gs' prop] boundary]. destruct boundary.
+    + inversion H; subst. split; [lia|reflexivity].
+    + destruct (zlen buf <=? len + l) eqn:El.
+      * inversion H; subst. split; [lia|intros; lia].
+      * apply Z.leb_gt in El. assert (Hl2 : 0 <= len + l < zlen buf) by lia.
+        destruct (IH _ _ _ _ _ _ _ _ Hl2 H) as (A & _). split; [lia|intros; lia].
+Qed.
+
+Lemma ustep_loop_prefix : forall f1 f2 x b gs fp w len c w' ns,
+  aligned (zskipn len x) -> 0 <= len < zlen x -> zlen x - len <= Z.of_nat f1 -> zlen x + zlen b - len <= Z.of_nat f2 ->
+  ustep_loop f2 (x ++ b) gs fp w len = (c, w', ns) -> c <= zlen x ->
+  (c < zlen x /\ ustep_loop f1 x gs fp w len = (c, w', ns) /\ aligned (zskipn c x)) \/
+  (c = zlen x /\ exists p, ustep_loop f1 x gs fp w len = (zlen x, w', Some (u_grAny, p))).
+Proof.
+  induction f1 as [|f IH]; intros f2 x b gs fp w len c w' ns Hal Hl F1 F2 H Hc; [lia|].
+  destruct f2 as [|f2]; [pose proof (zlen_nonneg b); lia|].
+  cbn [ustep_loop] in *.
+  inversion Hal as [E0|y r l v Hd Hrest E0]; [exfalso; eapply zskipn_nonempty; [exact Hl|symmetry; exact E0]|]. subst y.
+  destruct (go_decode_aligned _ b _ _ _ Hd) as (D1 & D2).
+  rewrite zskipn_app_le in H by lia. rewrite D1 in H. rewrite D2.
+  pose proof (decode_rune_size _ _ _ _ Hd) as (Hl1 & Hl2). rewrite zlen_zskipn_le in Hl2 by lia.
+  destruct (trans_grapheme gs r) as [[gs' prop] boundary]. destruct boundary.
+  - inversion H; subst. left. split; [lia|split; [reflexivity|exact Hal]].
+  - rewrite zlen_app in H.
+    destruct (Z.leb_spec (zlen x) (len + l)) as [Hend|Hmore].
+    + (* the cluster reaches the end of x *)
+      assert (len + l = zlen x) by lia.
+      destruct (Z.leb_spec (zlen x + zlen b) (len + l)) as [Hb|Hb].
+      * inversion H; subst. right. split; [pose proof (zlen_nonneg b); lia|].
+        exists prop. replace (zlen x + zlen b) with (zlen x) by (pose proof (zlen_nonneg b); lia). reflexivity.
+      * assert (Hl' : 0 <= len + l < zlen (x ++ b)) by (rewrite zlen_app; lia).
+        destruct (ustep_loop_ge _ _ _ _ _ _ _ _ _ Hl' H) as (G1 & G2).
+        assert (c = len + l) by lia. subst c. rewrite (G2 eq_refl). right. split; [lia|]. exists prop. first [reflexivity | repeat f_equal; lia].
+    + destruct (Z.leb_spec (zlen x + zlen b) (len + l)) as [Hb|Hb]; [pose proof (zlen_nonneg b); lia|].
+      apply (IH f2 x b gs' fp _ (len + l)); try assumption; try lia.
+      rewrite zskipn_zskipn in Hrest by lia. exact Hrest.
+Qed.
+
+Theorem ustep_prefix x b st c w ns : aligned x -> x <> [] -> ustep (x ++ b) st = (c, w, ns) -> c <= zlen x ->
+  (c < zlen x /\ ustep x st = (c, w, ns) /\ aligned (zskipn c x)) \/
+  (c = zlen x /\ exists p, ustep x st = (zlen x, w, Some (u_grAny, p))).
+Proof.
+  intros Hal Hne H Hc. unfold ustep in *.
+  inversion Hal as [E0|y r l v Hd Hrest E0]; [congruence|]. subst y.
+  destruct (go_decode_aligned _ b _ _ _ Hd) as (D1 & D2). rewrite D1 in H. rewrite D2.
+  pose proof (decode_rune_size _ _ _ _ Hd) as (Hl1 & Hl2).
+  rewrite zlen_app in H. pose proof (zlen_nonneg b) as Hbn.
+  destruct (Z.leb_spec (zlen x + zlen b) l) as [Ha|Ha].
+  - (* x is one character and b is empty *)
+    assert (zlen b = 0) by lia. assert (l = zlen x) by lia.
+    destruct (Z.leb_spec (zlen x) l); [|lia].
+    inversion H; subst. right. split; [lia|]. eexists. replace (zlen x + zlen b) with (zlen x) by lia. reflexivity.
+  - set (gp := match st with None => let '(g, p, _) := trans_grapheme (-1) r in (g, p) | Some (g, p) => (g, p) end) in *.
+    assert (Hfp : snd gp = match st with None => prop_graphemes r | Some (_, p) => p end).
+    { subst gp. destruct st as [[g p]|]; [reflexivity|]. unfold trans_grapheme.
+      pose proof (trans_prop_prop (-1) (prop_graphemes r)) as Q.
+      destruct (trans_prop (-1) (prop_graphemes r)) as [[g0 p0] b0]. exact Q. }
+    destruct gp as [gs firstProp] eqn:Egp. cbn [snd] in Hfp.
+    destruct (Z.leb_spec (zlen x) l) as [Hx|Hx].
+    + (* x is one character, b follows *)
+      assert (l = zlen x) by lia. subst l.
+      assert (Hl' : 0 <= zlen x < zlen (x ++ b)) by (rewrite zlen_app; lia).
+      destruct (ustep_loop_ge _ _ _ _ _ _ _ _ _ Hl' H) as (G1 & G2).
+      assert (c = zlen x) by lia. subst c. rewrite (G2 eq_refl), Hfp. right. split; [reflexivity|]. eexists; reflexivity.
+    + apply (ustep_loop_prefix (length x) (length (x ++ b)) x b gs firstProp _ l); try assumption; try lia.
+      * unfold zlen. lia.
+      * rewrite app_length. unfold zlen. lia.
+Qed.
+
+Lemma aligned_full x : aligned x -> x <> [] -> forall b, full_rune (x ++ b) = true /\ full_rune x = true.
+Proof.
+  intros Hal Hne b. inversion Hal as [E0|y r l v Hd _ E0]; [congruence|]. subst y.
+  unfold full_rune. rewrite (decode_rune_mono _ b _ Hd), Hd. split; reflexivity.
+Qed.
+
+Lemma ustep_pos buf st c w ns : buf <> [] -> ustep buf st = (c, w, ns) -> 1 <= c.
+Proof.
+  intros Hne H. unfold ustep in H. pose proof (go_decode_size buf Hne) as Hs.
+  destruct (go_decode_rune buf) as [r l]. cbn [snd] in Hs.
+  destruct (Z.leb_spec (zlen buf) l).
+  - inversion H; subst. lia.
+  - assert (Hl : 0 <= l < zlen buf) by lia.
+    destruct st as [[g p]|]; [|destruct (trans_grapheme (-1) r) as [[g p] b0]];
+      destruct (ustep_loop_ge _ _ _ _ _ _ _ _ _ Hl H); lia.
+Qed.
+
+(* P1: a token of x ++ b that ends inside x is the token of x alone: same bytes, width, merge flag and merge state;
+   the same segmentation state if it ends before the end of x, the reset state if it ends with x *)
+Theorem token_prefix x b rs tk : aligned x -> x <> [] ->
+  next_grapheme_token (x ++ b) rs = Some tk -> tt_len tk <= zlen x ->
+  exists tk', next_grapheme_token x rs = Some tk' /\
+    tt_len tk' = tt_len tk /\ tt_width tk' = tt_width tk /\ tt_merge tk' = tt_merge tk /\
+    rs_fm (tt_rs tk') = rs_fm (tt_rs tk) /\ rs_ri (tt_rs tk') = rs_ri (tt_rs tk) /\
+    (tt_len tk < zlen x -> rs_state (tt_rs tk') = rs_state (tt_rs tk) /\ aligned (zskipn (tt_len tk) x)) /\
+    (tt_len tk = zlen x -> rs_state (tt_rs tk') = None).
+Proof.
+  intros Hal Hne H Hc. unfold next_grapheme_token, step_grapheme_cluster in *.
+  destruct (aligned_full x Hal Hne b) as (F1 & F2). rewrite F1 in H. rewrite F2. cbn [negb] in *.
+  destruct (ustep (x ++ b) (rs_state rs)) as [[c w] ns] eqn:Eu.
+  assert (Hne2 : x ++ b <> []) by (destruct x; [congruence|discriminate]).
+  pose proof (ustep_pos _ _ _ _ _ Hne2 Eu) as Hpos.
+  destruct (merge_flags (zfirstn c (x ++ b)) (rs_fm rs) (rs_ri rs)) as [[m f] r] eqn:Em.
+  assert (Hcx : c <= zlen x) by (inversion H; subst; exact Hc).
+  rewrite (zfirstn_app_le c x b Hcx) in Em.
+  destruct (ustep_prefix x b _ c w ns Hal Hne Eu Hcx) as [(Hlt & Ex & Hal')|(Heq & p & Ex)]; rewrite Ex.
+  - (* ends strictly inside x *)
+    rewrite Em.
+    rewrite zskipn_app_le in H by lia.
+    assert (Hne' : zskipn c x <> []) by (apply zskipn_nonempty; lia).
+    destruct (aligned_full _ Hal' Hne' b) as (G1 & G2). rewrite G1 in H. rewrite G2.
+    rewrite zlen_app in H. pose proof (zlen_nonneg b) as Hbn.
+    destruct (Z.leb_spec (zlen x + zlen b) c); [lia|]. destruct (Z.leb_spec (zlen x) c); [lia|].
+    cbn [orb negb] in *. exists tk. inversion H; subst. cbn [tt_len tt_width tt_merge tt_rs rs_fm rs_ri rs_state].
+    repeat split; try reflexivity; try assumption; intros; exfalso; lia.
+  - (* ends exactly with x *)
+    subst c. rewrite Em. destruct (Z.leb_spec (zlen x) (zlen x)); [|lia]. cbn [orb].
+    eexists. split; [reflexivity|]. inversion H; subst. cbn [tt_len tt_width tt_merge tt_rs rs_fm rs_ri rs_state].
+    repeat split; try reflexivity; intros; exfalso; lia.
+Qed.
+
+(* ---- the whole clause for a run of text: a read boundary at a token boundary ---- *)
+
+(* the tokens of a run of text from a reader state: (bytes, width, merge) each, then the reader state and the bytes
+   left when the reader has to wait (nothing left, or an incomplete character) *)
+Inductive toks : list Z -> rstate -> list (Z * Z * bool) -> rstate -> list Z -> Prop :=
+| toks_stop buf rs : buf = [] \/ next_grapheme_token buf rs = None -> toks buf rs [] rs buf
+| toks_step buf rs tk l rs' rest : buf <> [] -> next_grapheme_token buf rs = Some tk ->
+    toks (zskipn (tt_len tk) buf) (tt_rs tk) l rs' rest ->
+    toks buf rs ((tt_len tk, tt_width tk, tt_merge tk) :: l) rs' rest.
+
+Fixpoint toks_len (l : list (Z * Z * bool)) : Z :=
+  match l with [] => 0 | (n, _, _) :: r => n + toks_len r end.
+
+(* a carried segmentation state describes the next character and is the fresh state for it *)
+Definition rs_ok (rs : rstate) (buf : list Z) : Prop :=
+  match rs_state rs with
+  | None => True
+  | Some (g, p) => full_rune buf = true /\ p = prop_graphemes (fst (go_decode_rune buf)) /\ g = fresh p
+  end.
+
+Definition rs_reset_state (rs : rstate) : rstate := mkRs None (rs_fm rs) (rs_ri rs).
+
+Lemma token_state_ok buf rs tk : next_grapheme_token buf rs = Some tk -> rs_ok (tt_rs tk) (zskipn (tt_len tk) buf).
+Proof.
+  unfold next_grapheme_token, step_grapheme_cluster. destruct (negb (full_rune buf)); [discriminate|].
+  destruct (ustep buf (rs_state rs)) as [[c w] ns] eqn:Eu.
+  destruct (merge_flags _ _ _) as [[m f] r]. intros H; inversion H; subst. cbn [tt_rs tt_len]. unfold rs_ok. cbn [rs_state].
+  destruct (Z.leb_spec (zlen buf) c); cbn [orb]; [exact I|].
+  destruct (full_rune (zskipn c buf)) eqn:Ef; cbn [negb]; [|exact I].
+  destruct ns as [[g p]|]; [|exact I].
+  destruct (ustep_fresh_state _ _ _ _ _ _ Eu ltac:(lia)) as (A & B). auto.
+Qed.
+
+(* under rs_ok the next token does not depend on whether the state is carried or reset *)
+Lemma token_reset buf rs : rs_ok rs buf -> next_grapheme_token buf rs = next_grapheme_token buf (rs_reset_state rs).
+Proof.
+  unfold rs_ok, rs_reset_state, next_grapheme_token, step_grapheme_cluster. cbn [rs_state rs_fm rs_ri].
+  destruct (rs_state rs) as [[g p]|]; [|reflexivity].
+  intros (_ & Hp & Hg). rewrite (ustep_carried_is_fresh buf g p Hp Hg). reflexivity.
+Qed.
+
+Lemma rs_eta rs : rs_state rs = None -> rs = rs_reset_state rs.
+Proof. destruct rs as [s f r]. cbn. intros ->. reflexivity. Qed.
+
+(* a run read from a carried state that is ok is the run read from the reset state *)
+Lemma toks_reset b rs l rs' rest : rs_ok rs b -> b <> [] -> toks b rs l rs' rest -> toks b (rs_reset_state rs) l rs' rest.
+Proof.
+  intros Hok Hne H. inversion H as [buf rs0 Hstop|buf rs0 tk l0 rs0' rest0 Hn Ht Hrest]; subst.
+  - destruct Hstop as [->|Hnone]; [congruence|].
+    (* no token: the character is incomplete, so the state was not carried *)
+    assert (Es : rs_state rs' = None).
+    { unfold rs_ok in Hok. destruct (rs_state rs') as [[g p]|]; [|reflexivity]. destruct Hok as (Hf & _).
+      unfold next_grapheme_token, step_grapheme_cluster in Hnone. rewrite Hf in Hnone. cbn [negb] in Hnone.
+      destruct (ustep _ _) as [[c w] ns]. destruct (merge_flags _ _ _) as [[m f] r]. discriminate. }
+    rewrite <- (rs_eta _ Es). exact H.
+  - rewrite (token_reset _ _ Hok) in Ht. eapply toks_step; eassumption.
+Qed.
+
+Lemma token_len_pos buf rs tk : buf <> [] -> next_grapheme_token buf rs = Some tk -> 1 <= tt_len tk.
+Proof.
+  intros Hne. unfold next_grapheme_token, step_grapheme_cluster. destruct (negb (full_rune buf)); [discriminate|].
+  destruct (ustep buf (rs_state rs)) as [[c w] ns] eqn:Eu. destruct (merge_flags _ _ _) as [[m f] r].
+  intros H; inversion H; subst. cbn [tt_len]. eapply ustep_pos; eassumption.
+Qed.
+
+(* along a derivation every token takes at least one byte *)
+Lemma toks_prefix_len : forall l1 buf rs l2 rs' rest, toks buf rs (l1 ++ l2) rs' rest ->
+  0 <= toks_len l1 /\ (toks_len l1 = 0 -> l1 = []).
+Proof.
+  induction l1 as [|[[n w] m] l1 IH]; intros buf rs l2 rs' rest H; cbn [toks_len]; [split; [lia|reflexivity]|].
+  cbn [app] in H. inversion H as [|b0 rs0 tk l0 rs0' rest0 Hn Ht Hrest]; subst.
+  pose proof (token_len_pos _ _ _ Hn Ht). destruct (IH _ _ _ _ _ Hrest) as (A & _). split; [lia|intros; lia].
+Qed.
+
+Lemma zskipn_all {A} (l : list A) : zskipn (zlen l) l = [].
+Proof. unfold zskipn, zlen. rewrite Nat2Z.id. apply skipn_all. Qed.
+
+Lemma rs_ext r1 r2 : rs_state r1 = rs_state r2 -> rs_fm r1 = rs_fm r2 -> rs_ri r1 = rs_ri r2 -> r1 = r2.
+Proof. destruct r1, r2. cbn. intros -> -> ->. reflexivity. Qed.
+
+(* C08, grapheme clause, for a run of text: if the tokens of a ++ b, read in one piece from a state that is ok,
+   have a boundary at |a| (the first tokens l1 take exactly the bytes of a), then a read alone yields exactly l1
+   and leaves nothing behind, and b read afterwards - from the reset segmentation state, with the merge flags
+   carried - yields exactly the remaining tokens, the same final reader state and the same bytes left. *)
+Theorem toks_cut : forall l1 a b rs l2 rs' rest, aligned a -> b <> [] -> rs_ok rs (a ++ b) ->
+  toks (a ++ b) rs (l1 ++ l2) rs' rest -> toks_len l1 = zlen a ->
+  exists rs1, toks a rs l1 rs1 [] /\ toks b (rs_reset_state rs1) l2 rs' rest.
+Proof.
+  induction l1 as [|[[n w] m] l1 IH]; intros a b rs l2 rs' rest Hal Hb Hok H Hlen.
+  - cbn [toks_len] in Hlen. assert (a = []) by (destruct a; [reflexivity|rewrite zlen_cons in Hlen; pose proof (zlen_nonneg a); lia]).
+    subst a. cbn [app] in *. exists rs. split; [apply toks_stop; left; reflexivity|]. apply toks_reset; assumption.
+  - cbn [app] in H. inversion H as [|buf rs0 tk l0 rs0' rest0 Hn Ht Hrest]; subst.
+    cbn [toks_len] in Hlen. pose proof (zlen_nonneg a) as Han.
+    destruct (toks_prefix_len _ _ _ _ _ _ Hrest) as (Hl1 & Hl0).
+    pose proof (token_len_pos _ _ _ Hn Ht) as Hpos.
+    assert (Hne : a <> []) by (intros ->; rewrite zlen_nil in Hlen; lia).
+    destruct (token_prefix a b rs tk Hal Hne Ht ltac:(lia)) as (tk' & Ht' & E1 & E2 & E3 & E4 & E5 & Hin & Hend).
+    pose proof (token_state_ok _ _ _ Ht) as Hok'.
+    destruct (Z_lt_ge_dec (tt_len tk) (zlen a)) as [Hlt|Hge].
+    + destruct (Hin Hlt) as (Es & Hal').
+      assert (Ers : tt_rs tk' = tt_rs tk) by (apply rs_ext; assumption).
+      rewrite zskipn_app_le in Hrest, Hok' by lia.
+      destruct (IH (zskipn (tt_len tk) a) b (tt_rs tk) l2 rs' rest Hal' Hb Hok' Hrest) as (rs1 & T1 & T2).
+      { rewrite zlen_zskipn_le by lia. lia. }
+      exists rs1. split; [|exact T2].
+      rewrite <- E1, <- E2, <- E3. eapply toks_step; [exact Hne|exact Ht'|]. rewrite E1, Ers. exact T1.
+    + assert (Elen : tt_len tk = zlen a) by lia.
+      assert (l1 = []) by (apply Hl0; lia). subst l1. cbn [app] in Hrest.
+      exists (tt_rs tk'). split.
+      * rewrite <- E1, <- E2, <- E3. eapply toks_step; [exact Hne|exact Ht'|].
+        rewrite E1, Elen, zskipn_all. apply toks_stop. left; reflexivity.
+      * rewrite Elen, zskipn_app_le, zskipn_all in Hrest, Hok' by lia. cbn [app] in Hrest, Hok'.
+        replace (rs_reset_state (tt_rs tk')) with (rs_reset_state (tt_rs tk)) by (unfold rs_reset_state; rewrite E4, E5; reflexivity).
+        apply toks_reset; assumption.
+Qed.
